@@ -73,6 +73,8 @@ class SBy:
         return -1
     def startswith(self, p): p = SBy.of(p); return len(p) <= len(self) and bool(SBy(self.els[:len(p)]) == p)
     def endswith(self, p): p = SBy.of(p); return len(p) <= len(self) and (len(p) == 0 or bool(SBy(self.els[-len(p):]) == p))
+    def ljust(self, n, fill=b" "):
+        return SBy(self.els + list(fill) * max(0, n - len(self.els)))
     def ints(self):
         """elements as python ints / SI proxies (for arithmetic code that indexes bytes)"""
         return [e if isinstance(e, int) else SI(e) for e in self.els]
@@ -140,7 +142,27 @@ class SymPattern:
         if pos < len(s) and SB(_in_set(s.els[pos], self.vals)): return _M(pos, pos + 1)
         return None
 
+def sx_join(sep, items):
+    items = list(items)
+    if any(isinstance(x, SBy) for x in items) or isinstance(sep, SBy):
+        out = SBy([])
+        for i, x in enumerate(items):
+            if i:
+                out = out + SBy.of(sep)
+            out = out + SBy.of(x)
+        return out
+    return sep.join(items)
+
+
 class InRewriter(ast.NodeTransformer):
+    def visit_Call(self, node):
+        self.generic_visit(node)
+        f = node.func
+        if (isinstance(f, ast.Attribute) and f.attr == "join" and isinstance(f.value, ast.Constant) and isinstance(f.value.value, bytes)
+                and len(node.args) == 1 and not node.keywords):
+            return ast.copy_location(ast.Call(ast.Name("sx_join_", ast.Load()), [f.value, node.args[0]], []), node)
+        return node
+
     def visit_Compare(self, node):
         self.generic_visit(node)
         if len(node.ops) == 1 and isinstance(node.ops[0], (ast.In, ast.NotIn)):
@@ -267,12 +289,15 @@ def patch_module_in(mod):
         def visit_ClassDef(s, n):
             s.stack.append(n.name); s.generic_visit(n); s.stack.pop()
         def visit_FunctionDef(s, n):
-            has = any(isinstance(c, ast.Compare) and any(isinstance(o, (ast.In, ast.NotIn)) for o in c.ops) for c in ast.walk(n))
+            has = any((isinstance(c, ast.Compare) and any(isinstance(o, (ast.In, ast.NotIn)) for o in c.ops)) or
+                      (isinstance(c, ast.Call) and isinstance(c.func, ast.Attribute) and c.func.attr == "join" and isinstance(c.func.value, ast.Constant)
+                       and isinstance(c.func.value.value, bytes)) for c in ast.walk(n))
             if has: found.append((list(s.stack), n))
             s.stack.append(n.name); s.generic_visit(n); s.stack.pop()
     Finder().visit(tree)
     mod.__dict__["sx_in_"] = sx_in
     mod.__dict__["sx_notin_"] = sx_notin
+    mod.__dict__["sx_join_"] = sx_join
     done = []
     for path, fn in found:
         obj = mod
